@@ -480,6 +480,9 @@ func (el *eventloop) ticker() {
 	}
 	el.nextTicker = now.Add(time.Second)
 
+	// the refresher goroutine must not publish the next topology while this one is being adopted:
+	// pools and slot table would be built from two different descriptions, or its change flag be lost
+	EngineGlobal.ClusterNodes.mu.Lock()
 	if EngineGlobal.ClusterNodes.serverChanged {
 		verifTopoPoint("t-pools")
 		logging.Infof("[server changed] start load new server, old redis nodes: %+v", EngineGlobal.ProxyAddrs)
@@ -523,6 +526,7 @@ func (el *eventloop) ticker() {
 		EngineGlobal.ClusterNodes.serverChanged = false
 		logging.Infof("[server changed] end load new server, cost: %s, new redis nodes: %+v", time.Since(now), EngineGlobal.ProxyAddrs)
 	}
+	EngineGlobal.ClusterNodes.mu.Unlock()
 
 	for k, v := range EngineGlobal.ProxyPool {
 		GlobalStats.RedisServerActive.WithLabelValues(k).Set(float64(v.ActiveCount()))
